@@ -21,6 +21,8 @@ def parseAct (ts : List String) : Option Act :=
   match ts with
   | ["E", tgt, kind, d, dm, hk] => some (.emit (natD tgt) (natD kind) (natD d) (natD dm != 0) (natD hk))
   | ["EP", tgt, kind, b, dm] => some (.emitPast (natD tgt) (natD kind) (natD b) (natD dm != 0))
+  | ["EA", tgt, kind, t, dm] => some (.emitAbs (natD tgt) (natD kind) (natD t) (natD dm != 0))
+  | ["RH", i] => some (.release (natD i))
   | ["X", k] => some (.cancel (natD k))
   | ["R", f, v] => some (.resolve (natD f) (natD v))
   | "A" :: f :: gs => some (.anyOf (natD f) (nats gs))
@@ -45,6 +47,7 @@ def parseSeg (ts : List String) : Seg :=
 structure Program where
   defs : List HandlerDef := []
   pre : List (Spec × Nat × Bool) := []      -- spec, hook, cancelled-before-run
+  held : List Spec := []                    -- created before the run (after the scheduled ones), not scheduled
 
 def parseProgram (body : List String) : Program :=
   body.foldl (fun p line =>
@@ -53,6 +56,8 @@ def parseProgram (body : List String) : Program :=
       { p with defs := p.defs ++ [⟨natD ent, natD kind, natD gen != 0, (splitOnTok ";" rest).map parseSeg⟩] }
     | ["pre", tgt, kind, t, dm, hk, c] =>
       { p with pre := p.pre ++ [(⟨natD t, natD tgt, natD kind, natD dm != 0, 0, p.pre.length + 1⟩, natD hk, natD c != 0)] }
+    | ["held", tgt, kind, t, dm] =>
+      { p with held := p.held ++ [⟨natD t, natD tgt, natD kind, natD dm != 0, 0, 0⟩] }
     | _ => p) {}
 
 /-- initial engine state of a program at clock 0 -/
@@ -61,7 +66,8 @@ def Program.initState (p : Program) (gateCont : Bool) : St PS :=
   let n := specs.length
   let ids := List.range n
   let ps : PS :=
-    { defs := p.defs, nid := n, tagc := n, gateCont := gateCont,
+    { defs := p.defs, nid := n, tagc := n + p.held.length, gateCont := gateCont,
+      held := ((List.range p.held.length).zip p.held).map (fun q => (q.1, { q.2 with tag := n + q.1 + 1 })),
       lastKind := (ids.zip specs).foldl (fun acc q => (q.2.kind, q.1) :: acc.filter (fun x => x.1 != q.2.kind)) [],
       hookOf := (ids.zip p.pre).filterMap (fun q => if q.2.2.1 = 0 then none else some (q.1, q.2.2.1)) }
   let s : St PS := init ps 0 specs
